@@ -17,9 +17,12 @@ structure NodeInfo where
   foreign : Bool
   at_ : Nat      -- spec artifact type class (artifactType, else config media type), 0 = none
   ann : Nat      -- value class of the filter annotation, 0 = absent
+  subj : Option Nat := Option.none
 
 structure St where
   nodes : List NodeInfo := []
+  /-- the source lists only referrers (a remote repository): `p` precedes `v` iff `v` is `p`'s subject -/
+  subjOnly : Bool := false
 
 def St.get (st : St) (n : Nat) : Option NodeInfo := st.nodes.find? (·.id == n)
 
@@ -40,7 +43,7 @@ def keeps (f : Filter) (p : NodeInfo) : Bool :=
 
 /-- Ground-truth (filtered) predecessors: stored nodes that link to `v` and pass the filter. -/
 def truthPreds (st : St) (f : Filter) (v : Nat) : List Nat :=
-  (st.nodes.filter fun p => p.stored && p.succ.contains v && keeps f p).map (·.id)
+  (st.nodes.filter fun p => p.stored && (if st.subjOnly then p.subj == some v else p.succ.contains v) && keeps f p).map (·.id)
 
 /-- Breadth-first distances upward from `n0` (fuel = number of nodes). -/
 def upDist (st : St) (f : Filter) (n0 : Nat) : List (Nat × Nat) :=
@@ -84,6 +87,7 @@ def subset (a b : List Nat) : Bool := a.all b.contains
 def step (st : St) (toks : List String) : Option (St × String × String) :=
   match toks with
   | ["new"] => some ({}, "ok", "ok")
+  | ["new", "rel=subject"] => some ({ subjOnly := true }, "ok", "ok")
   | "node" :: n :: rest => do
       let n ← n.toNat?
       let succ ← parseNats (← kv rest "succ")
@@ -91,7 +95,8 @@ def step (st : St) (toks : List String) : Option (St × String × String) :=
       let foreign := (← kv rest "foreign") == "1"
       let at_ ← (← kv rest "at").toNat?
       let ann ← (← kv rest "ann").toNat?
-      some ({ st with nodes := st.nodes ++ [⟨n, succ, stored, foreign, at_, ann⟩] }, "ok", "ok")
+      let subj := (kv rest "subj").bind (·.toNat?)
+      some ({ st with nodes := st.nodes ++ [⟨n, succ, stored, foreign, at_, ann, subj⟩] }, "ok", "ok")
   | "check" :: rest => do
       let depth ← (← kv rest "depth").toNat?
       let n0 ← (← kv rest "node").toNat?
